@@ -8182,7 +8182,8 @@ void SoPlexBase<R>::_removeRowsReal(int perm[])
    }
    else if(_hasBasis)
    {
-      for(int i = numRows() - 1; i >= 0 && _hasBasis; i--)
+      // perm[] and the stored statuses still have the old number of rows
+      for(int i = _basisStatusRows.size() - 1; i >= 0 && _hasBasis; i--)
       {
          if(perm[i] < 0 && _basisStatusRows[i] != SPxSolverBase<R>::BASIC)
             _hasBasis = false;
@@ -8248,7 +8249,8 @@ void SoPlexBase<R>::_removeColsReal(int perm[])
    }
    else if(_hasBasis)
    {
-      for(int i = numCols() - 1; i >= 0 && _hasBasis; i--)
+      // perm[] and the stored statuses still have the old number of columns
+      for(int i = _basisStatusCols.size() - 1; i >= 0 && _hasBasis; i--)
       {
          if(perm[i] < 0 && _basisStatusCols[i] == SPxSolverBase<R>::BASIC)
             _hasBasis = false;
